@@ -146,8 +146,12 @@ def run(index, rep, tier):
         if nset == 0:
             rep.ob("R18.2", "src/dendropy/model", "no set-typed locals in the simulators", True)
 
+    with rep.section("R18.3"):
         _distinct_labels_rule(index, rep)
+    with rep.section("R18.4"):
         _containment_rule(index, rep)
+    with rep.section("R18.5"):
+        _stretch_rule(index, rep)
 
 
 def _distinct_labels_rule(index, rep):
@@ -252,3 +256,37 @@ def _containment_rule(index, rep):
             rep.check(ok, "R18.4", q, "pushed-up lineages not from coalesce_nodes over the branch: " + (norm_stmt(bad[0])[:60] if bad else "no definition"), fn_where(f, bad[0] if bad else site),
                       "%s: lineages pushed to the parent population come from coalesce_nodes(period=edge.length)" % f.name,
                       "%s: the lineages handed up to the parent population can come from `%s` instead of coalesce_nodes(..., period=<edge>.length): those lineages' edges are not extended by the branch duration, so the gene tree is no longer ultrametric and lineages of different species can join more recently than the species diverged" % (q, norm_stmt(bad[0])[:80] if bad else "nothing"))
+
+
+def _stretch_rule(index, rep):
+    """R18.5: coalesce_nodes stretches EVERY lineage by the waiting time, also a fresh one whose edge has no length yet."""
+    rep.rule("R18.5", "coalesce_nodes adds each waiting time to the edge of every remaining lineage, whether or not that edge already has a length (a fresh gene node has none): the stretch loops are evaluated for both cases")
+    from . import c08
+    f = index.function("dendropy.model.coalescent.coalesce_nodes")
+    n = 0
+    for lp in ast.walk(f.node):
+        if not (isinstance(lp, ast.For) and isinstance(lp.target, ast.Name)):
+            continue
+        tgt = lp.target.id + ".edge.length"
+        writes = [a for a in ast.walk(lp) if isinstance(a, (ast.Assign, ast.AugAssign)) and norm(a.targets[0] if isinstance(a, ast.Assign) else a.target) == tgt]
+        if not writes:
+            continue
+        addends = set()
+        for a in writes:
+            for nm in ast.walk(a.value):
+                if isinstance(nm, ast.Name) and nm.id != lp.target.id:
+                    addends.add(nm.id)
+        if len(addends) != 1:
+            continue
+        n += 1
+        add = addends.pop()
+        try:
+            table = c08.length_update_table(lp.body, tgt, add)
+        except c08._Unknown:
+            raise AnalysisError("R18.5: the stretch loop `for %s in %s` of coalesce_nodes is not decidable" % (lp.target.id, norm(lp.iter)))
+        want = {False: "C+R", True: "R"}
+        bad = {k: v for k, v in table.items() if v != want[k]}
+        rep.check(not bad, "R18.5", f.qualname, "stretch of `%s` by `%s`: %s" % (tgt, add, table), fn_where(f, lp), "coalesce_nodes: every lineage is stretched by `%s` (edge with a length -> C+R, without -> R)" % add,
+                  "coalesce_nodes stretches the lineages by `%s` wrongly when the edge %s: it ends up as %s instead of %s. A fresh gene lineage (no length yet) then loses the first waiting time, so lineages of different species can join more recently than the species diverged and the gene tree is not ultrametric"
+                  % (add, "has no length yet" if True in bad else "already has a length", bad, {k: want[k] for k in bad}))
+    rep.floor("R18.5", "stretch loops in coalesce_nodes", 1, n)
